@@ -36,19 +36,26 @@ def lru_scenario(rng, sid, limit_kind, limit, nputs, stream):
     return {"id": sid, "ops": ops, "_d": dname, "_kind": limit_kind, "_limit": limit, "_esz": len(bytes.fromhex(keys[0])) + 6 + META}
 
 
-def idle_scenario(rng, sid, window, members):
+def idle_scenario(rng, sid, window, members, multitable=False):
+    """multitable: the fragment's tables are small and filler entries are written after the hot keys, so the hot keys live in
+    older (read-only) tables; they are kept alive by reads only (a Put would move them into the newest table)"""
     dname = "c10i%d" % sid
     hot = [dmaplib.hx("hot%d" % i) for i in range(6)]
     cold = [dmaplib.hx("cold%d" % i) for i in range(6)]
     ops = []
     for k in hot + cold:
         ops.append({"op": "put", "c": "emb@owner", "d": dname, "k": k, "v": dmaplib.hx("v")})
+    if multitable:
+        for i in range(10):
+            k = dmaplib.hx("fill%d" % i)
+            cold.append(k)
+            ops.append({"op": "put", "c": "emb@owner", "d": dname, "k": k, "v": dmaplib.hx("f" * 70)})
     rounds = 5
     step = window // 3
     for r in range(rounds):
         ops.append({"op": "sleep", "ms": step})
         for k in hot:
-            ops.append({"op": rng.choice(["get", "put"]), "c": rng.choice(["emb@owner", "cc", "emb@other"]), "d": dname, "k": k, "v": dmaplib.hx("v")})
+            ops.append({"op": "get" if multitable else rng.choice(["get", "put"]), "c": rng.choice(["emb@owner", "cc", "emb@other"]), "d": dname, "k": k, "v": dmaplib.hx("v")})
         for m in range(members):
             ops.append({"op": "evict", "m": m})
     for k in hot + cold:
@@ -174,6 +181,16 @@ def run(res):
         sid += 1
         cfg = {"members": members, "replicas": min(2, members), "partitions": parts, "table": 1 << 16, "evict_workers": 1, "dmaps": dmaps}
         groups.append((cfg, scs))
+    # idle eviction on fragments that span several tables (keys in read-only tables kept alive by reads)
+    for members, parts in ((1, 1), (2, 3)):
+        scs, dmaps = [], {}
+        for j in range(1 if res.tier == "quick" else 3):
+            rng = vlib.rng_for(res.seed, PID, "idle-mt", sid)
+            sc = idle_scenario(rng, sid, 360, members, multitable=True)
+            dmaps[sc["_d"]] = {"maxidle_ms": 360}
+            scs.append(sc)
+            sid += 1
+        groups.append(({"members": members, "replicas": min(2, members), "partitions": parts, "table": 256, "evict_workers": 1, "dmaps": dmaps}, scs))
     for cfg, scs in groups:
         for sc in scs:
             sc["ops"] = dmaplib.with_keyinfo(sc["ops"])
